@@ -16,7 +16,7 @@ CONSTANTS
   MaxRet = 4
   DistinctRets = TRUE
   MaxUnionArgs = 1
-  EmitOneIn = 1
+  EmitOneIn = 2
 INVARIANT PropertyHolds
 INVARIANT MachineIsOperator
 INVARIANT BinderAgrees
